@@ -184,6 +184,9 @@ func (p c10) Gen(t *rapid.T, env *Env) (*Case, []*Out) {
 		if f.ClashDef != "" {
 			meta.ClashDefs = append(meta.ClashDefs, f.ClashDef)
 		}
+		if f.Tag == "j0" {
+			meta.ClashDefs = append(meta.ClashDefs, strings.TrimSuffix(f.Base, ".json"))
+		}
 		_, pp := expectedRouting(w, f)
 		meta.PkgOf[f.Tag] = pp[strings.LastIndex(pp, "/")+1:]
 		for _, mk := range markersOf(f) {
@@ -198,6 +201,13 @@ func (p c10) Gen(t *rapid.T, env *Env) (*Case, []*Out) {
 			}
 			if tf := w.File(mt); tf != nil && md != "" && md == tf.ClashDef {
 				r.Spelling = "nameclash" // every reference to the name-clash definition, however spelled
+			}
+			if jf := w.File("j0"); jf != nil && (r.Spelling != "typename" || meta.Cycle) {
+				// T0Da.json's root type wants the name T0Da, which the definition T0Da of the first document holds: a
+				// name clash like the one above (the hijack itself keeps its own label, "typename")
+				if mt == "j0" || (mt == w.Files[0].Tag && md == strings.TrimSuffix(jf.Base, ".json")) {
+					r.Spelling = "nameclash"
+				}
 			}
 			meta.Refs = append(meta.Refs, c10Ref{RefUse: r, ModelTag: mt, ModelDef: md})
 			if r.Combo != "" && !r.LocalOnly && r.ToTag != r.FromTag {
